@@ -8,6 +8,7 @@ import ast
 import itertools
 import os
 
+
 import z3
 
 from . import smt
@@ -86,10 +87,58 @@ class Ctx:
         r = self.feas_cache.get(key)
         if r is None:
             self.feas_calls += 1
-            res = smt.check_sat(pc, timeout_ms=self.config.get("feas_timeout_ms", int(os.environ.get("PYVC_FEAS_MS", "150"))), use_cvc5=False)
-            r = res.status != "unsat"
+            tmo = self.config.get("feas_timeout_ms", int(os.environ.get("PYVC_FEAS_MS", "150")))
+            if os.environ.get("PYVC_INCREMENTAL", "1") == "1":
+                st = self._inc_check(pc, tmo)
+            else:
+                st = smt.check_sat(pc, timeout_ms=tmo, use_cvc5=False).status
+            r = st != "unsat"
             self.feas_cache[key] = r
         return r
+
+    def _inc_check(self, pc, tmo):
+        """Incremental feasibility: one solver whose assertion stack mirrors the path condition (paths
+        are explored depth-first, so consecutive queries share long prefixes).  Only `unsat` is used;
+        the stack is re-validated against the path condition before every query."""
+        if not hasattr(self, "_inc"):
+            self._inc = z3.Solver()
+            self._inc_stack = []          # [(formula id, formula)]
+            self._inc_axioms = set()      # ids of axioms asserted at level 0
+            self._inc_names = set()
+            self._inc_seen = set()
+        s = self._inc
+        # longest common prefix
+        n = 0
+        while n < len(self._inc_stack) and n < len(pc) and self._inc_stack[n][0] == pc[n].get_id():
+            n += 1
+        # new symbols -> their axioms must live at level 0: rebuild from scratch if any appear
+        names_before = len(self._inc_names)
+        for f in pc[n:]:
+            smt._decl_names(f, self._inc_names, self._inc_seen)
+        if len(self._inc_names) != names_before or not self._inc_axioms:
+            ax = smt.all_axioms_for(list(pc))
+            new_ax = [a for a in ax if a.get_id() not in self._inc_axioms]
+            if new_ax:
+                # pop everything, add the axioms at the bottom, re-push
+                while self._inc_stack:
+                    s.pop()
+                    self._inc_stack.pop()
+                for a in new_ax:
+                    s.add(a)
+                    self._inc_axioms.add(a.get_id())
+                    smt._decl_names(a, self._inc_names, self._inc_seen)
+                n = 0
+        while len(self._inc_stack) > n:
+            s.pop()
+            self._inc_stack.pop()
+        for f in pc[n:]:
+            s.push()
+            s.add(f)
+            self._inc_stack.append((f.get_id(), f))
+        assert [i for i, _ in self._inc_stack] == [f.get_id() for f in pc], "incremental solver stack out of sync"
+        s.set("timeout", tmo)
+        r = s.check()
+        return "unsat" if r == z3.unsat else ("sat" if r == z3.sat else "unknown")
 
     def refute_or_oos(self, st, msg):
         """Called before giving up on a branch: if the branch is in fact unreachable (decided with a
